@@ -1,12 +1,13 @@
 #!/bin/bash
 # usage: mt_run.sh <name> <patch.diff> <check-id> [<check-id>...]
-# runs checks of a scratch copy of /verif (/tmp/mt/verif) against the scratch repo /tmp/mt/repo with the patch applied
+MT=${MT:-/tmp/mt}; export MT
+# runs checks of a scratch copy of /verif ($MT/verif) against the scratch repo $MT/repo with the patch applied
 NAME=$1; P=$2; shift 2
-rsync -a --delete --exclude work --exclude replays --exclude evidence --exclude .git /verif/ /tmp/mt/verif/ 
-cd /tmp/mt/repo && git reset -q --hard && git checkout -q --detach main && git clean -qfd -e target && git apply $P || { echo "MT $NAME apply-failed"; exit 1; }
-cd /tmp/mt/verif
+rsync -a --delete --exclude work --exclude replays --exclude evidence --exclude .git /verif/ $MT/verif/ 
+cd $MT/repo && git reset -q --hard && git checkout -q --detach main && git clean -qfd -e target && git apply $P || { echo "MT $NAME apply-failed"; exit 1; }
+cd $MT/verif
 for id in "$@"; do
-  ./check $id > /tmp/mt/run_${NAME}_$id.log 2>&1; rc=$?
-  echo "MT $NAME check=$id exit=$rc $(grep -c '^VIOLATION' /tmp/mt/run_${NAME}_$id.log) violation-lines; $(grep -A1 -m1 '^VIOLATION' /tmp/mt/run_${NAME}_$id.log | tail -1 | cut -c1-200)"
+  ./check $id > $MT/run_${NAME}_$id.log 2>&1; rc=$?
+  echo "MT $NAME check=$id exit=$rc $(grep -c '^VIOLATION' $MT/run_${NAME}_$id.log) violation-lines; $(grep -A1 -m1 '^VIOLATION' $MT/run_${NAME}_$id.log | tail -1 | cut -c1-200)"
 done
-cd /tmp/mt/repo && git reset -q --hard
+cd $MT/repo && git reset -q --hard
